@@ -260,6 +260,44 @@ def oracle_A(case):
     return fails, tr
 
 
+def oracle_A2(rng, max_n):
+    """histories with a change of units between two rescalings: rescale -> back -> re-express columns
+    (affine maps, as when H0 is turned into h or a percentage into a fraction) -> rescale again.
+    After EVERY rescaling the chain must be in the unit cube with the ranges of its CURRENT samples."""
+    Chain = _chain_mod().Chain
+    fails = []
+    npar = rng.randint(1, 4)
+    names = rng.sample(NAMES_POOL, npar)
+    n = rng.choice([3, 4, rng.randint(3, max_n)])
+    cols = {k: [float(x) for x in draw_column(rng, n)] for k in names}
+    with warnings.catch_warnings():
+        warnings.simplefilter("ignore")
+        c = Chain("kw", "probe", {k: np.array(v, dtype=float) for k, v in cols.items()}, np.ones(n), "FLCDM", rescale=True)
+        for rnd in range(rng.randint(1, 3)):
+            c.rescale_from_unity()
+            for k in names:
+                if rng.random() < 0.7:
+                    a, b = rng.choice([0.01, 100.0, rng.uniform(0.2, 5.0)]), rng.choice([0.0, rng.uniform(-3, 3)])
+                    cols[k] = [a * x + b for x in cols[k]]
+                    c.params[k] = a * np.asarray(c.params[k], dtype=float) + b
+            c.rescale_to_unity()
+            for k in names:
+                u, mx, mn = unit_of(cols[k])
+                g = [float(x) for x in np.asarray(c.params[k], dtype=float)]
+                s_ = col_scale(cols[k])
+                if not (abs(min(g)) <= 1e-9 and abs(max(g) - 1.0) <= 1e-9 and close_list(g, u, 1e-8)):
+                    fails.append(("Chain.rescale_to_unity:stale-range-after-unit-change",
+                                  "round %d: %s is not mapped to the unit cube with the range of its current samples (min %.4g max %.4g)"
+                                  % (rnd, k, min(g), max(g))))
+                    return fails
+                d = c.rescale_dic[k]
+                if abs(d[0] - mx) > 1e-8 * s_ or abs(d[1] - mn) > 1e-8 * s_:
+                    fails.append(("Chain.rescale_dic:stale-range-after-unit-change",
+                                  "round %d: stored range of %s is %r, the current samples span [%r, %r]" % (rnd, k, d, mn, mx)))
+                    return fails
+    return fails
+
+
 def compare_A(case, tr, o, res):
     enc = {"stream": "A", "case": encode_A(case)}
     if "err" in o:
@@ -874,6 +912,16 @@ def run(ctx, res):
         drv.append(("A", c, tr, {"op": "C13.run", "params": enc_params(c["params"]), "rescale": c["rescale"], "ops": c["ops"]}))
     res.sample({"stream": "A", "names": [k for k, _ in casesA[8]["params"]], "n": len(casesA[8]["params"][0][1]),
                 "rescale": casesA[8]["rescale"], "ops": casesA[8]["ops"]})
+    # ---- A2: unit changes between rescalings (oracle only)
+    for _ in range(ctx.n(60, 800)):
+        try:
+            fails = oracle_A2(rng, 30)
+        except Exception as e:  # noqa
+            res.notes.append("A2 could not run: %r" % (e,))
+            continue
+        res.evaluations += 1
+        res.count("A2.unit-change-histories")
+        report("A2", fails, {"a2": True})
     # ---- B
     for _ in range(ctx.n(200, 3000)):
         c = gen_B(rng)
@@ -972,7 +1020,14 @@ def run(ctx, res):
 def replay(ctx, data):
     inp = data["input"]
     s = inp["stream"]
-    if s == "A":
+    if s == "A2":
+        import random
+        fails = []
+        for sd in range(80):
+            fails = oracle_A2(random.Random(sd), 30)
+            if fails:
+                break
+    elif s == "A":
         fails, _ = oracle_A(decode_A(inp["case"]))
     elif s == "B":
         fails, _ = oracle_B(decode_B(inp["case"]))
